@@ -483,3 +483,47 @@ Definition pr2_complete_under_guard_full : Prop :=
   (forall x, sat_cons B x -> exists p, sat_cons C p /\ forall j, (j < n)%nat -> p (n + j)%nat == x j) ->
   (exists x, sat_cons B x) ->
   ranking n q (rel2 n B C) -> exists u, sat_cons (pr_mip n B C) u.
+
+(* ---------- the hypotheses of the soundness / checker theorems are satisfiable ---------- *)
+Definition ex_before : list con := [ mkc [1]%Z (-1) GE ].      (* x >= 1 *)
+
+Example ex_ms_mip_feasible : dimc (1 + 1) ex_after /\ exists q, sat_cons (ms_mip 1 ex_after) q.
+Proof.
+  split; [intros c [<-|[<-|[]]]; cbn; lia|].
+  assert (E : nonempty_cons 9 (ms_mip 1 ex_after) = Some true) by (vm_compute; reflexivity).
+  exact (proj1 (nonempty_cons_exact _ _ _ E) eq_refl).
+Qed.
+
+Example ex_pro_mip_feasible : exists l, sat_cons (pro_mip 1 ex_after) l.
+Proof.
+  assert (E : nonempty_cons 4 (pro_mip 1 ex_after) = Some true) by (vm_compute; reflexivity).
+  exact (proj1 (nonempty_cons_exact _ _ _ E) eq_refl).
+Qed.
+
+Example ex_pr_mip_feasible : dimc 1 ex_before /\ exists u, sat_cons (pr_mip 1 ex_before ex_after) u.
+Proof.
+  split; [intros c [<-|[]]; cbn; lia|].
+  assert (E : nonempty_cons 4 (pr_mip 1 ex_before ex_after) = Some true) by (vm_compute; reflexivity).
+  exact (proj1 (nonempty_cons_exact _ _ _ E) eq_refl).
+Qed.
+
+Example ex_pr_all_feasible : exists u, sat_cons (pr_all 1 ex_before ex_after) u.
+Proof.
+  assert (E : nonempty_cons 4 (pr_all 1 ex_before ex_after) = Some true) by (vm_compute; reflexivity).
+  exact (proj1 (nonempty_cons_exact _ _ _ E) eq_refl).
+Qed.
+
+(* the function x (gl = [1; 0], divisor 1) on the example: accepted by both checkers; -x rejected *)
+Example ex_check_rank : check_rank 1 ex_after [1; 0]%Z 1 = Some true /\ check_rank 1 ex_after [-1; 0]%Z 1 = Some false.
+Proof. split; vm_compute; reflexivity. Qed.
+
+Example ex_check_weak : check_weak 1 ex_after [1; 0]%Z true = Some true /\ check_weak 1 ex_after [0; 0]%Z true = Some false /\
+                        check_weak 1 ex_after [0; 0]%Z false = Some true.
+Proof. repeat split; vm_compute; reflexivity. Qed.
+
+Example ex_same_cons : same_cons_b [mkc [2; -4]%Z 6 EQ; mkc [0; 1]%Z (-1) GE] [mkc [0; 3]%Z (-3) GE; mkc [-1; 2]%Z (-3) EQ] = true.
+Proof. vm_compute; reflexivity. Qed.
+
+Example ex_approximation : assign_all_inequalities_approximation [mkc [1; -1]%Z 1 EQ; mkc [0; 1]%Z 0 GT]
+                           = [mkc [1; -1]%Z 1 GE; mkc [-1; 1]%Z (-1) GE; mkc [0; 1]%Z 0 GE].
+Proof. vm_compute; reflexivity. Qed.
